@@ -4,6 +4,7 @@ import (
 	"encoding/json"
 	"errors"
 	"fmt"
+	"io"
 	"math/rand"
 	"net/http"
 	"net/url"
@@ -78,6 +79,8 @@ type chainRun struct {
 }
 
 type panicToken struct{ id int }
+
+var writeAPI int
 
 func opName(op []any) string { return op[0].(string) }
 func opInt(op []any, i int) int {
@@ -156,7 +159,19 @@ func mkHandler(run **chainRun, h int, script [][]any) rux.HandlerFunc {
 				c.SetStatus(opInt(op, 1))
 			case "write":
 				r.rw.modes = append(r.rw.modes, op[2].(string))
-				_, _ = c.Resp.Write([]byte(strings.Repeat("x", opInt(op, 1))))
+				data := strings.Repeat("x", opInt(op, 1))
+				// the ways a handler can put bytes on the wire; all of them are one Write of the lazy writer
+				writeAPI++
+				switch api := writeAPI % 4; {
+				case api == 1 && op[2] == "full":
+					c.WriteBytes([]byte(data)) // (panics on a write error, so only where the underlying writer accepts everything)
+				case api == 2:
+					_, _ = io.WriteString(c.Resp, data)
+				case api == 3 && len(data) > 0:
+					_, _ = io.Copy(c.Resp, io.LimitReader(strings.NewReader(data), int64(len(data)))) // uses ReadFrom if the writer has one
+				default:
+					_, _ = c.Resp.Write([]byte(data))
+				}
 			case "flush":
 				c.Resp.(http.Flusher).Flush()
 			case "httpError":
